@@ -19,6 +19,7 @@ import (
 
 	"github.com/alibaba/sentinel-golang/core/base"
 	"github.com/alibaba/sentinel-golang/logging"
+	"github.com/alibaba/sentinel-golang/util/verifhook"
 	"github.com/pkg/errors"
 )
 
@@ -53,6 +54,7 @@ func (mb *MetricBucket) Add(event base.MetricEvent, count int64) {
 }
 
 func (mb *MetricBucket) addCount(event base.MetricEvent, count int64) {
+	verifhook.Yield("mb.add")
 	atomic.AddInt64(&mb.counter[event], count)
 }
 
@@ -62,37 +64,47 @@ func (mb *MetricBucket) Get(event base.MetricEvent) int64 {
 		logging.Error(errors.Errorf("Unknown metric event: %v", event), "")
 		return 0
 	}
+	verifhook.Yield("mb.get")
 	return atomic.LoadInt64(&mb.counter[event])
 }
 
 func (mb *MetricBucket) reset() {
 	for i := 0; i < int(base.MetricEventTotal); i++ {
+		verifhook.Yield("mb.reset.counter")
 		atomic.StoreInt64(&mb.counter[i], 0)
 	}
+	verifhook.Yield("mb.reset.minrt")
 	atomic.StoreInt64(&mb.minRt, base.DefaultStatisticMaxRt)
+	verifhook.Yield("mb.reset.maxconc")
 	atomic.StoreInt32(&mb.maxConcurrency, int32(0))
 }
 
 func (mb *MetricBucket) AddRt(rt int64) {
 	mb.addCount(base.MetricEventRt, rt)
+	verifhook.Yield("mb.minrt.load")
 	if rt < atomic.LoadInt64(&mb.minRt) {
 		// Might not be accurate here.
+		verifhook.Yield("mb.minrt.store")
 		atomic.StoreInt64(&mb.minRt, rt)
 	}
 }
 
 func (mb *MetricBucket) MinRt() int64 {
+	verifhook.Yield("mb.minrt.get")
 	return atomic.LoadInt64(&mb.minRt)
 }
 
 func (mb *MetricBucket) UpdateConcurrency(concurrency int32) {
 	cc := concurrency
+	verifhook.Yield("mb.maxconc.load")
 	if cc > atomic.LoadInt32(&mb.maxConcurrency) {
 		// Might not be accurate here.
+		verifhook.Yield("mb.maxconc.store")
 		atomic.StoreInt32(&mb.maxConcurrency, cc)
 	}
 }
 
 func (mb *MetricBucket) MaxConcurrency() int32 {
+	verifhook.Yield("mb.maxconc.get")
 	return atomic.LoadInt32(&mb.maxConcurrency)
 }
